@@ -58,15 +58,15 @@ struct Pool {
 
 // Address space (not memory) for the cells of arrays with more than 2^31 / 2^32 cells: a NORESERVE mapping,
 // only the pages actually written get backed.  Lets get()/set() of huge arrays run for real.
-static const size_t BIGMEM_BYTES = ((size_t)1 << 35) + 4096;
-static signed char *bigmem()
+static const size_t BIGMEM_BYTES = ((size_t)1 << 36) + 4096;   // 2^35 two-byte cells (short: an element type for which range_t<T> is well-formed)
+static short *bigmem()
 {
-  static signed char *p = nullptr;
+  static short *p = nullptr;
   static bool tried = false;
   if (!tried) {
     tried = true;
     void *m = mmap(nullptr, BIGMEM_BYTES, PROT_READ | PROT_WRITE, MAP_PRIVATE | MAP_ANONYMOUS | MAP_NORESERVE, -1, 0);
-    if (m != MAP_FAILED) p = (signed char *)m;
+    if (m != MAP_FAILED) p = (short *)m;
   }
   return p;
 }
@@ -169,16 +169,16 @@ int main()
           return S(a.numElements()) + " " + S(a.indexOf(vec3i(I(w[4]), I(w[5]), I(w[6])))) + " " + show(a.size());
         }
         if (op == "bigrw") {
-          // bigrw dx dy dz  x y z  v  idx  wx wy wz : set(c,v) on an array of dx*dy*dz (<= 2^35) one-byte cells, then
+          // bigrw dx dy dz  x y z  v  idx  wx wy wz : set(c,v) on an array of dx*dy*dz (<= 2^35) two-byte cells, then
           // get(c), the raw cell at the linear index given in the op line, and get(w) (w possibly outside)
-          signed char *mem = bigmem();
+          short *mem = bigmem();
           if (!mem) return "nomem";
           vec3i d(I(w[1]), I(w[2]), I(w[3])), c(I(w[4]), I(w[5]), I(w[6])), q(I(w[9]), I(w[10]), I(w[11]));
           ull n = (ull)d.x * (ull)d.y * (ull)d.z, idx = U(w[8]);
-          if (n > BIGMEM_BYTES - 4096 || idx >= n) return "bad-op";
+          if (n > (BIGMEM_BYTES - 4096) / sizeof(short) || idx >= n) return "bad-op";
           CpuGuard guard(3);
-          ActualArray3D<signed char> a(d, mem);
-          a.set(c, (signed char)I(w[7]));
+          ActualArray3D<short> a(d, mem);
+          a.set(c, (short)I(w[7]));
           int r1 = a.get(c), r2 = mem[idx], r3 = a.get(q);
           a.set(c, 0);
           mem[idx] = 0;
